@@ -7,8 +7,10 @@
 
 mod batch;
 mod core;
+mod d1c03;
 mod d1req;
 mod d1stream;
+mod d4;
 mod gen;
 mod json;
 mod model;
